@@ -100,6 +100,7 @@ type PathCtx struct {
 	inSched     bool
 	inBlock     bool
 	tryDepth    int
+	atomicVals  map[value]*value
 	tryEffects  int
 	randN, randRun int
 	pins        map[*Term]uint64
